@@ -486,4 +486,16 @@ example : LineNums 0 2 Track.new
     [.octave { v := -2147483648 }, .octDown, .note 2 .none (.frames { v := 2147483647 } 1)] :=
   ⟨trivial, ⟨by decide, by decide⟩, trivial, trivial, (by decide : 2 < 8), ⟨⟨by decide, by decide⟩, by decide⟩, trivial⟩
 
+/-- the inputs of repository fixes a16b488 / a22a11c as the repaired code reads them (the check
+replays the same lines on the real code): the dotted frame count narrows to 65534 ticks, `(` of
+`INT_MIN` records `VOL_REL 0`, and the octave arithmetic wraps in 32 bits before the 16-bit event field -/
+example :
+    eventsOfLine (strBytes "A c:2147483647.") = [{ type := ev_NOTE, param := 60, on := 65534, off := 0 }] ∧
+    eventsOfLine (strBytes "A (2147483648") = [{ type := ev_VOL_REL, param := 0, on := 0, off := 0 }] ∧
+    eventsOfLine (strBytes "A o-2147483648 c") = [{ type := ev_NOTE, param := -12, on := 24, off := 0 }] ∧
+    eventsOfLine (strBytes "A o2147483647 c") = [{ type := ev_NOTE, param := -24, on := 24, off := 0 }] ∧
+    eventsOfLine (strBytes "A o-2147483647 < c") = [{ type := ev_NOTE, param := -12, on := 24, off := 0 }] ∧
+    eventsOfLine (strBytes "A o2147483647 >> c") = [{ type := ev_NOTE, param := 0, on := 24, off := 0 }] := by
+  decide +kernel
+
 end Ctrmml.C05
